@@ -2,6 +2,8 @@
 from .. import rules_alias as RA
 from .. import rules_inst as RI
 from .. import rules_flow as RF
+from .. import rules_grammar as RG
+from .. import rules_xml as RX
 
 ID = "C13"
 EXPLANATION = (
@@ -17,6 +19,11 @@ EXPLANATION = (
     "special-cased by literal comparison. P4: no class-level or module-level container of the parser or the "
     "instantiator is mutated at run time, so repeating instantiation on fresh parses starts from the same "
     "state.")
+EXPLANATION += (
+    " P5: no word-like terminal of the grammar is a plain Literal in front of an identifier position, so no spelling of a template "
+    "parameter (class_type, typenameT ...) is split by the parser (rule shared with C01 G9). P6: per-request state outside the "
+    "instantiator that the generated text depends on - the docstring extractor's overload counter - is keyed by the requesting class's full "
+    "C++ name as received, so the bindings of one instantiation do not advance the counter of another (rule shared with C17 Q8).")
 ASSUMPTIONS = [
     "copy.deepcopy creates an independent object graph (the repo patches ParseResults.__getattr__ so that "
     "deepcopy works; modelled as a plain deep copy)",
@@ -34,4 +41,6 @@ def run(ctx, rep):
     rep.run(RI.rule_coverage, ctx, rep, "P2", min_sites=10)
     rep.run(RI.rule_typenames_are_keys, ctx, rep, "P3")
     rep.run(RF.rule_no_shared_state, ctx, rep, "P4", packages=("gtwrap/interface_parser", "gtwrap/template_instantiator"))
+    rep.run(RG.rule_word_boundary, ctx, rep, "P5")
+    rep.run(RX.rule_counter_key_identity, ctx, rep, "P6")
     rep.run(RF.rule_locals_defined, ctx, rep, "U1", packages=("gtwrap/template_instantiator",), min_functions=3)
